@@ -181,7 +181,7 @@ def main(argv=None):
                 h = hashlib.sha256(json.dumps([j['obligation'], res['values']], sort_keys=True).encode()).hexdigest()[:10]
                 path = os.path.join(VERIF, 'replays', '%s-%s.json' % (prop, h))
                 json.dump(dict(property=prop, module=modname, tier=tier, unit=j['unit'], obligation=j['obligation'],
-                               values=res['values'], how=res.get('how'), detail=res.get('detail'),
+                               values=res['values'], how=res.get('how'), detail=res.get('detail'), unpatched=res.get('unpatched', False),
                                info=j.get('info')), open(path, 'w'), indent=1)
                 confirmed.append(dict(obligation=j['obligation'], replay=path, how=res.get('how'),
                                       detail=res.get('detail')))
@@ -304,7 +304,7 @@ def main(argv=None):
 def do_replay_file(prop, modname, tier, path, seed):
     d = json.load(open(path))
     job = dict(kind='violation', unit=d['unit'], obligation=d['obligation'], values=d['values'],
-               patched=False, exact=True)
+               patched=False, exact=True, unpatched=d.get('unpatched', False))
     res = replay_batch(d.get('module', modname), d.get('tier', tier), [job], jit=True, seed=seed)[0]
     print(json.dumps(res, indent=1))
     if res.get('reproduced'):
